@@ -2,6 +2,6 @@
    Only ExtrOcamlBasic's directives are used; N, Z, positive, nat stay the
    extracted inductive types. *)
 From Coq Require Extraction ExtrOcamlBasic.
-From Econf Require Import Scenario Grammar LayeredScenario.
+From Econf Require Import Scenario Grammar LayeredScenario WriterSpec.
 Extraction Language OCaml.
-Extraction "model.ml" step run wstep world0 err_code all_errs render wf_file agrees expected keyfile_of_read.
+Extraction "model.ml" step run wstep world0 writable chk_render chk_wf chk_roundtrip err_code all_errs render wf_file agrees expected keyfile_of_read.
